@@ -321,12 +321,25 @@ theorem payout_frame {w w' : World} {sub : SubMsg} {tv f : Bool} (h : w.payout s
     · have := tokSend_frame h; exact ⟨this.1, this.2.2.1, this.2.2.2.1, this.2.2.2.2⟩
 
 
+/-- A successful `ibc_channel_open` writes nothing and emits nothing. -/
+theorem exec_chanOpen {w w' : World} {blk : Block} {v : String} {cv : Option String} {ord : Bool} {o : Outcome}
+    (h : w.exec blk (.chanOpen v cv ord) = .ok (w', o)) : w' = w ∧ o = {} := by
+  simp only [World.exec, Res.bind_ok] at h
+  obtain ⟨_, _, h⟩ := h
+  simp at h
+  exact ⟨h.1.symm, h.2.symm⟩
+
+/-- `ibc_channel_close` never succeeds. -/
+theorem exec_chanClose {w w' : World} {blk : Block} {id : String} {o : Outcome}
+    (h : w.exec blk (.chanClose id) = .ok (w', o)) : False := by
+  simp [World.exec, ibcChannelClose, bind, Except.bind] at h
+
 /-- Governance ops and channel handshakes touch neither the books nor any balance. -/
 theorem exec_plain_frame {w w' : World} {blk : Block} {op : Op} {o : Outcome} (h : w.exec blk op = .ok (w', o))
-    (hop : (∃ id v cv ord, op = .connect id v cv ord) ∨ (∃ snd c g, op = .allow snd c g) ∨ (∃ snd a, op = .updateAdmin snd a)) :
+    (hop : (∃ id v cv ord peer, op = .connect id v cv ord peer) ∨ (∃ snd c g, op = .allow snd c g) ∨ (∃ snd a, op = .updateAdmin snd a)) :
     w'.st.chan = w.st.chan ∧ w'.bank = w.bank ∧ w'.tok = w.tok ∧ w'.self = w.self ∧ w'.tokens = w.tokens ∧
     w'.st.version = w.st.version ∧ o.ack = none ∧ o.sub = none ∧ o.sent = [] := by
-  rcases hop with ⟨id, v, cv, ord, rfl⟩ | ⟨snd, c, g, rfl⟩ | ⟨snd, a, rfl⟩
+  rcases hop with ⟨id, v, cv, ord, peer, rfl⟩ | ⟨snd, c, g, rfl⟩ | ⟨snd, a, rfl⟩
   · simp [World.exec, ibcChannelConnect] at h
     obtain ⟨s, ⟨_, _, rfl⟩, rfl, rfl⟩ := h
     exact ⟨rfl, rfl, rfl, rfl, rfl, rfl, rfl, rfl, rfl⟩
@@ -456,9 +469,13 @@ theorem exec_ledger {w w' : World} {g : Ghost} {blk : Block} {op : Op} {o : Outc
   obtain ⟨h12, hj⟩ := hi
   simp only at h12 hj
   cases op with
-  | connect id v cv ord =>
-    have f := exec_plain_frame h (Or.inl ⟨id, v, cv, ord, rfl⟩)
+  | connect id v cv ord peer =>
+    have f := exec_plain_frame h (Or.inl ⟨id, v, cv, ord, peer, rfl⟩)
     simp only [LedgerInv, Ghost.update, f.1]; exact ⟨h12, hj⟩
+  | chanOpen v cv ord =>
+    obtain ⟨rfl, rfl⟩ := exec_chanOpen h
+    simp only [LedgerInv, Ghost.update]; exact ⟨h12, hj⟩
+  | chanClose id => exact (exec_chanClose h).elim
   | allow snd c gg =>
     have f := exec_plain_frame h (Or.inr (Or.inl ⟨snd, c, gg, rfl⟩))
     simp only [LedgerInv, Ghost.update, f.1]; exact ⟨h12, hj⟩
